@@ -127,6 +127,19 @@ pub fn c13(h: &mut H) {
                     reject(h, "field_zero", &k.pk, &bases, &sig_with(&sig, f, &Integer::from(0)), &msgs);
                 }
             }
+            // the same verification equation written with other representatives: v^e = (v^-1)^(-e),
+            // v = v + N (mod N); nothing but the issued triple may verify
+            if let Ok(vinv) = vv.clone().invert(&k.n_mod) {
+                let mut z = sig_with(&sig, "v", &vinv);
+                z = sig_with(&z, "e", &Integer::from(-e.clone()));
+                reject(h, "neg_e_inverse_v", &k.pk, &bases, &z, &msgs);
+                if n == 1 {
+                    let v = verify1(h, &k.pk, &bases, &z, &msgs[0]);
+                    h.expect(!v.is_true(), "C13.neg_e_inverse_v_single", "verify accepted (-e, s, v^-1)", &[h.last()]);
+                }
+            }
+            reject(h, "neg_e", &k.pk, &bases, &sig_with(&sig, "e", &Integer::from(-e.clone())), &msgs);
+            reject(h, "v_negated", &k.pk, &bases, &sig_with(&sig, "v", &Integer::from(&k.n_mod - &vv)), &msgs);
             // e and s swapped, other bases, other key
             let mut sw = sig.clone();
             sw["e"] = sig["s"].clone();
